@@ -102,7 +102,7 @@ CFG = {
             "compared: result class and canonical decoded content against the model, oracle: equals toResponse(status), whose players are ascending by index. "
             "probe: 1..4 scripted responders (closed port, garbage, any dialect, hostport equal/different/missing/signed) behind the real "
             "portprober.Probe, answers spaced 40 ms apart in every arrival order; compared: which responder's answer was kept (from the prober's own "
-            "debug log) and its dialect; oracle: kept answer is accepted and of maximal dialect. non-trivial = non-empty status delivered / at least one responder answers",
+            "debug log), its dialect and the class of the prober's result; oracle: kept answer is accepted and of maximal dialect, and the result class is the one the kept answer's details give (DetailsProbe.detailsOf: res:ok iff they parse and validate; res:port-mismatch / res:err-other never accepted). non-trivial = non-empty status delivered / at least one responder answers",
     "assumptions": [
         "well-formedness of a status stream is defined by Spec/GS1Spec.lean (WfStatus, WireOf, WfCuts, encodeWire); the Go generator's encoder is checked against it on every case",
         "player indexes on the wire are plain decimals below 2^63 (what the game servers send); other strconv.Atoi spellings (+1, 01, -1) and non-numeric or out-of-range suffixes are outside the quantifier — the model mirrors them (examples at the end of Properties/C08.lean)",
